@@ -88,6 +88,16 @@ def d7_fresh(ctx, rep):
             verdicts.append(True)
         else:
             verdicts.append(None)
+    # get_instance(prototype, **kwargs) with kwargs builds `prototype.__class__(**kwargs)`: the recorded constructor arguments of a configured
+    # instance are replaced, not extended.  Library code that clones a user-configured distribution therefore passes no keywords.
+    for f_ in prog.functions.values():
+        if f_.module.name == 'copulas.utils':
+            continue
+        for c_ in walk_no_nested(f_.node):
+            if isinstance(c_, ast.Call) and prog.resolve(f_.module, c_.func) == 'copulas.utils.get_instance' and (c_.keywords or len(c_.args) > 1):
+                what = ', '.join((k.arg or '**') for k in c_.keywords) or 'extra arguments'
+                rep.bad('D7.clone', f_, c_, f'`{short(c_, 60)}`: with keywords ({what}) get_instance rebuilds an instance from those keywords alone, so the options the user configured on '
+                        'the prototype (bandwidth, bounds, candidate filters) are dropped', construct=f'{f_.node.name}: prototype cloned without overrides')
     bad = [x for x in verdicts if isinstance(x, tuple)]
     if bad:
         rep.bad('D7.clone', fn, bad[0][1], f'on one path the model that is fitted is the configured `{dp}` object itself: every column configured with that '
@@ -103,7 +113,8 @@ def d1_d3(ctx, rep):
     rep.rule('D1.argmin', 'select_univariate keeps the candidate with the strictly smallest KS statistic (initial +inf, guarded paired update, returns a fresh instance of it)')
     rep.rule('D2.score', 'the score is element 0 of kstest(X, instance.cdf) of the instance created and fitted on the same X in this iteration')
     rep.rule('D3.envelope', 'creation, fit and kstest of a candidate are enclosed by a try that catches Exception and continues the loop')
-    fn = prog.func(SEL)
+    from ..inline import inlined_view
+    fn = inlined_view(ctx, prog.func(SEL))      # `ks = _score(model, X)` stands for the body of a straight-line private helper
     xp, cp = fn.params[0], fn.params[1]
     loops = [n for n in walk_no_nested(fn.node) if isinstance(n, ast.For) and isinstance(n.iter, ast.Name) and n.iter.id == cp]
     if len(loops) != 1 or not isinstance(loops[0].target, ast.Name):
@@ -148,6 +159,22 @@ def d1_d3(ctx, rep):
             continue
         guard = (i, best, cur, less, assigned)
     if guard is None:
+        # the collect-then-pick form: scores appended in the loop, the winner taken with np.argmin / min afterwards.  np.argmin returns the
+        # position of a NaN (and min() keeps a leading NaN), whereas the running `score < best` never accepts a NaN statistic.
+        picks = [c for c in walk_no_nested(fn.node) if isinstance(c, ast.Call) and (prog.resolve(fn.module, c.func) or '') in ('numpy.argmin', 'numpy.argmax', 'numpy.nanargmin', 'numpy.nanargmax')]
+        ks_any = any(isinstance(c, ast.Call) and prog.resolve(fn.module, c.func) == 'scipy.stats.kstest' for c in ast.walk(loop))
+        nan_aware = any(isinstance(c, ast.Call) and (prog.resolve(fn.module, c.func) or '') in ('numpy.isnan', 'numpy.isfinite', 'math.isnan', 'math.isfinite', 'numpy.nan_to_num')
+                        for c in walk_no_nested(fn.node))
+        if picks and ks_any:
+            nm_ = prog.resolve(fn.module, picks[0].func)
+            if nm_.endswith('argmax') and 'nan' not in nm_:
+                rep.bad('D1.argmin', fn, picks[0], 'the winner is taken with np.argmax over the KS statistics: the worst-fitting candidate is selected', construct='arg-min polarity')
+            elif nm_ == 'numpy.argmin' and not nan_aware:
+                rep.bad('D1.argmin', fn, picks[0], '`np.argmin` over the collected KS statistics returns the position of a NaN when one is present: a candidate whose fitted CDF '
+                        'evaluates to NaN on the data is selected, where the strict comparison `ks < best` never accepts it', construct='arg-min guard')
+            else:
+                rep.undecided('D1.argmin', fn, picks[0], 'selection by an arg-extremum over collected scores: pairing of scores and candidates is not derived', construct='arg-min guard')
+            return
         rep.undecided('D1.argmin', fn, loop, 'guarded update `if score < best` not recognised', construct='arg-min guard')
         return
     i, best, cur, less, assigned = guard
@@ -202,7 +229,8 @@ def d1_d3(ctx, rep):
         fits = [c for c in ast.walk(loop) if isinstance(c, ast.Call) and isinstance(c.func, ast.Attribute) and c.func.attr == 'fit'
                 and isinstance(c.func.value, ast.Name) and c.func.value.id == inst and c.args and isinstance(c.args[0], ast.Name)
                 and c.args[0].id == xp]
-        order = bool(mk and fits) and (mk[0].lineno < fits[0].lineno < kc.lineno)
+        pos_ = lambda n_: (n_.lineno, n_.col_offset)
+        order = bool(mk and fits) and (pos_(mk[0]) < pos_(fits[0]) < pos_(kc))
         good = isinstance(a0, ast.Name) and a0.id == xp and inst is not None and order
         rep.check('D2.score', fn, kc, good, 'kstest(X, instance.cdf) of the instance of this candidate fitted on X',
                   'the KS statistic is not computed for the candidate of this iteration fitted on the same data', construct='kstest binding')
@@ -228,6 +256,14 @@ def d4(ctx, rep):
     rep.rule('D4.enum', 'candidate enumeration recurses over subclasses, skips abstract classes and applies both filters; every concrete family declares its tags')
     fn = prog.method(UNI, '_select_candidates')
     pa, pb = fn.params[1], fn.params[2]
+    # the enumeration is evaluated on every call: a memoised result is one list object shared by every selector with the same filters
+    # (an edit of one instance's candidates edits them all) and never sees a family defined after the first call
+    memo = [d for d in fn.node.decorator_list if (prog.resolve(fn.module, d.func if isinstance(d, ast.Call) else d) or '') in ('functools.lru_cache', 'functools.cache')]
+    if memo:
+        rep.bad('D4.enum', fn, memo[0], f'`@{short(memo[0], 40)}` on the candidate enumeration: every Univariate with the same filters holds the same list object, and '
+                'families registered later are never candidates', construct='enumeration evaluated per call')
+    else:
+        rep.ok('D4.enum', fn, fn.node.name, 'not memoised', construct='enumeration evaluated per call')
     loops = [n for n in walk_no_nested(fn.node) if isinstance(n, ast.For)]
     ok_iter = bool(loops) and isinstance(loops[0].iter, ast.Call) and call_name(loops[0].iter) == '__subclasses__'
     rep.check('D4.enum', fn, loops[0].iter if loops else fn.node.name, ok_iter, 'iterates cls.__subclasses__()',
